@@ -42,12 +42,13 @@ Lemma scan_hex_run hs rest : forall acc, 0 <= acc -> forallb is_hex hs = true ->
 Proof.
   intros acc Ha Hd Hv Hr. revert acc Ha Hv. induction hs as [|c t IH]; intros acc Ha Hv.
   - cbn [app fold_left]. destruct rest as [|s z]; [reflexivity|]. rewrite scan_hex_cons.
-    change (getz (s :: z) 0) with s in Hr. rewrite Hr. reflexivity.
+    change (getz (s :: z) 0) with s in Hr. rewrite Hr, andb_false_r. reflexivity.
   - cbn [forallb] in Hd. apply andb_true_iff in Hd. destruct Hd as [Hc Ht].
     cbn [app fold_left] in *. rewrite scan_hex_cons, Hc.
     pose proof (fold_hex_mono t (hstep acc c)) as M. pose proof (hex_val_range c Hc). unfold hstep in *.
     specialize (M ltac:(lia) Ht).
-    rewrite wrap64_small by lia. rewrite (IH Ht) by lia. rewrite len_cons. reflexivity.
+    replace (acc <? 65536) with true by lia. cbn [andb].
+    rewrite (IH Ht) by lia. rewrite len_cons. reflexivity.
 Qed.
 
 (* the decoder of the statements reads the same value *)
@@ -319,3 +320,94 @@ Proof.
   apply (CL_dec [57]); [discriminate|reflexivity|vm_compute; split; reflexivity|discriminate|].
   apply CL_text; [discriminate|]. apply CL_nil.
 Qed.
+
+(* ---- over-long hexadecimal references are left alone ------------------------------------------------------
+   (before the fix a8361dd in /repo the accumulator wrapped modulo 2^64 and `&#x10000000000000041;` became `A`) *)
+Lemma scan_hex_big hs post : forall acc, 0 <= acc -> forallb is_hex hs = true -> 10000 <= fold_left hstep hs acc ->
+  exists nd c, scan_hex (hs ++ 59 :: post) acc = (nd, c) /\ 0 <= nd <= len hs /\ 10000 <= c.
+Proof.
+  induction hs as [|h t IH]; intros acc Ha Hh Hv.
+  - cbn [app fold_left] in *. exists 0, acc. rewrite scan_hex_cons. change (is_hex 59) with false.
+    rewrite andb_false_r. change (len (@nil Z)) with 0. repeat split; lia.
+  - cbn [forallb] in Hh. apply andb_true_iff in Hh. destruct Hh as [Hc Ht]. pose proof (hex_val_range h Hc).
+    cbn [app fold_left] in *. rewrite scan_hex_cons, Hc, len_cons. pose proof (len_nonneg t).
+    destruct (acc <? 65536) eqn:E; cbn [andb].
+    + unfold hstep in Hv. destruct (IH (acc * 16 + hex_val h) ltac:(lia) Ht Hv) as (nd & c & -> & Hn & Hc2).
+      exists (1 + nd), c. repeat split; lia.
+    + exists 0, acc. repeat split; lia.
+Qed.
+
+Lemma in_skipz {A} (x : A) n l : In x (skipz n l) -> In x l.
+Proof. unfold skipz. intros H. rewrite <- (firstn_skipn (Z.to_nat n) l). apply in_or_app. right. exact H. Qed.
+
+Lemma hex_not_amp hs : forallb is_hex hs = true -> ~ In 38 hs.
+Proof.
+  intros H Hin. rewrite forallb_forall in H. specialize (H 38 Hin). discriminate H.
+Qed.
+
+Lemma overlong_hex_fix em rm hs post : forallb is_hex hs = true -> 10000 <= hex_num hs -> ~ In 38 post ->
+  forall pre D f, ~ In 38 pre -> len (pre ++ 38 :: 35 :: 120 :: hs ++ 59 :: post) < Z.of_nat f ->
+    ent_loop em rm f (D ++ pre ++ 38 :: 35 :: 120 :: hs ++ 59 :: post) (len D)
+    = Ok (D ++ pre ++ 38 :: 35 :: 120 :: hs ++ 59 :: post).
+Proof.
+  intros Hh Hv Hpost. set (ref := 38 :: 35 :: 120 :: hs ++ 59 :: post).
+  induction pre as [|c t IH]; intros D f Hpre Hf.
+  - cbn [app] in *. destruct f as [|f]; [pose proof (len_nonneg ref); lia|].
+    destruct (split_stop post) as (lu & lw & Hsp & Hw).
+    pose proof (len_nonneg hs) as Hl0. pose proof (len_nonneg lu). pose proof (len_nonneg lw). pose proof (len_nonneg D).
+    set (u := 38 :: 35 :: 120 :: hs ++ 59 :: lu).
+    assert (Eu : ref = u ++ lw) by (unfold ref, u; rewrite Hsp; cbn [app]; rewrite <- app_assoc; reflexivity).
+    assert (Hlu : len u = 4 + len hs + len lu) by (unfold u; rewrite !len_cons, len_app, len_cons; lia).
+    destruct (scan_hex_big hs lu 0 (Z.le_refl 0) Hh Hv) as (nd & cc & Es & Hnd & Hcc).
+    assert (Hdec : decide em rm u = Keep (3 + nd - 1)).
+    { unfold decide.
+      assert (G1 : getz u 1 = 35) by (unfold u; change 1 with (1 + 0); rewrite getz_S by lia; apply getz_0).
+      assert (G2 : getz u 2 = 120) by (unfold u; change 2 with (1 + (1 + 0)); rewrite !getz_S by lia; apply getz_0).
+      rewrite G1, G2. change (35 =? 35) with true. change (120 =? 120) with true. cbv iota.
+      change (skipz 3 u) with (hs ++ 59 :: lu). rewrite Es.
+      replace ((3 + nd <=? 3) || (10000 <=? cc)) with true by lia. reflexivity. }
+    rewrite Eu. rewrite ent_loop_amp.
+    2:{ rewrite !len_app. lia. }
+    2:{ replace (len D) with (len D + 0) at 1 by lia. rewrite getz_shift by lia.
+        unfold u at 1. cbn [app]. rewrite getz_0.
+        replace (len D + 3 <? len (D ++ u ++ lw)) with true by (rewrite !len_app; lia). reflexivity. }
+    rewrite (replace_at_dec em rm D u lw Hw) by lia. rewrite Hdec. cbn [apply_dec rbind].
+    (* the rest of the buffer contains no '&' *)
+    set (m := 3 + nd). replace (len D + (m - 1) + 1) with (len D + m) by lia.
+    rewrite (split_at (u ++ lw) m) at 1. rewrite app_assoc.
+    replace (len D + m) with (len (D ++ firstz m (u ++ lw))) by (rewrite len_app, len_firstz by (rewrite len_app; lia); lia).
+    rewrite noamp_fix.
+    + rewrite <- app_assoc, <- split_at. reflexivity.
+    + intros Hin. rewrite <- Eu in Hin. unfold ref, m in Hin.
+      change (38 :: 35 :: 120 :: hs ++ 59 :: post) with ([38; 35; 120] ++ hs ++ 59 :: post) in Hin.
+      replace (3 + nd) with (len [38; 35; 120] + nd) in Hin by reflexivity.
+      rewrite skipz_add in Hin by lia. apply in_skipz in Hin. apply in_app_or in Hin.
+      destruct Hin as [Hin|[Hin|Hin]]; [exact (hex_not_amp hs Hh Hin)|discriminate|exact (Hpost Hin)].
+    + rewrite len_skipz by (rewrite len_app; lia). rewrite <- Eu. lia.
+  - destruct f as [|f]; [pose proof (len_nonneg ((c :: t) ++ ref)); lia|].
+    cbn [app] in *. rewrite len_cons in Hf.
+    rewrite ent_loop_skip; [|rewrite len_app, len_cons; pose proof (len_nonneg (t ++ ref)); lia|].
+    + replace (D ++ c :: t ++ ref) with ((D ++ [c]) ++ t ++ ref) by (rewrite <- app_assoc; reflexivity).
+      replace (len D + 1) with (len (D ++ [c])) by (rewrite len_app; reflexivity).
+      rewrite IH; [rewrite <- app_assoc; reflexivity|intros Hin; apply Hpre; right; exact Hin|lia].
+    + rewrite getz_app_len. destruct (c =? 38) eqn:E; [|reflexivity]. exfalso. apply Hpre. left. lia.
+Qed.
+
+Lemma entities_overlong_hex_unchanged_proof : forall em rm pre hs post,
+  forallb is_hex hs = true -> 10000 <= hex_num hs -> ~ In 38 pre -> ~ In 38 post ->
+  let b := pre ++ 38 :: 35 :: 120 :: hs ++ 59 :: post in
+  replace_entities em rm b = Ok b.
+Proof.
+  intros em rm pre hs post Hh Hv Hpre Hpost b. unfold replace_entities, b.
+  apply (overlong_hex_fix em rm hs post Hh Hv Hpost pre [] (S (length (pre ++ 38 :: 35 :: 120 :: hs ++ 59 :: post))) Hpre).
+  unfold len. lia.
+Qed.
+
+Example entities_overlong_hex_example :
+  (* `&#x10000000000000041;` and `&#xFFFFFFFFFFFFFF41;` stay as they are *)
+  replace_entities [] [] [38;35;120;49;48;48;48;48;48;48;48;48;48;48;48;48;48;48;48;52;49;59]
+    = Ok [38;35;120;49;48;48;48;48;48;48;48;48;48;48;48;48;48;48;48;52;49;59] /\
+  replace_entities [] [] [38;35;120;70;70;70;70;70;70;70;70;70;70;70;70;70;70;52;49;59]
+    = Ok [38;35;120;70;70;70;70;70;70;70;70;70;70;70;70;70;70;52;49;59] /\
+  10000 <= hex_num [49;48;48;48;48;48;48;48;48;48;48;48;48;48;48;48;52;49].
+Proof. vm_compute. repeat split; discriminate. Qed.
